@@ -63,9 +63,11 @@ func Properties() []string {
 
 // NewCtx builds a rule context.
 func NewCtx(p *load.Program, r *ob.Run, tier string) *Ctx {
-	return &Ctx{P: p, R: r, Tier: tier,
+	c := &Ctx{P: p, R: r, Tier: tier,
 		X:  &an.Extractor{InModule: load.InModule, MaxDepth: 4, NoInline: map[*ssa.Function]bool{}},
-		XO: &an.Extractor{InModule: load.InModule, MaxDepth: 0, NoInline: map[*ssa.Function]bool{}}}
+		XO: &an.Extractor{InModule: load.InModule, MaxDepth: 4, NoInline: map[*ssa.Function]bool{}}}
+	c.XO.Inline = c.helperInline(nil)
+	return c
 }
 
 func (c *Ctx) pos(p token.Pos) string { return c.P.Pos(p) }
